@@ -33,8 +33,11 @@ import (
 //	gateway-services:ServiceKind:kind-empty-after-restore    ServiceKind "service" (set when an instance registered after the config entry) → "" for
 //	                                                          wildcard rows and ingress / api gateway rows, which the config-entry path rebuilds without a kind
 //	gateway-services:wildcard-overwrites-explicit-online     original row FromWildcard, restored row explicit, config entry lists service AND "*"
-//	gateway-services:rows-lost:proxy-without-destination-instance   lost wildcard row of a service that only exists as a proxy destination / connect-native name
+//	gateway-services:rows-lost:proxy-without-destination-instance   lost wildcard row created online by a proxy registration for a service that has no
+//	                                                          local typical instance with a local connect instance (what restore's expansion walks)
 //	mesh-topology:rows-lost:proxy-without-destination-instance      its twin (Upstream = that service, Downstream = the gateway)
+//	mesh-topology:rows-lost:stale-row-of-vanished-proxy-online      lost row none of whose Refs (node/serviceID) is a registered instance any more
+//	mesh-topology:rows-added:refs-ignore-peer-name           added row whose Ref matches both a local proxy and an imported proxy that still has the upstream
 //	kind-service-names:connect-enabled-row-stale-online      lost connect-enabled row, no connect instance of the service exists any more
 //	peering-secret-uuids:active-secret-added-by-restore      added uuid is the ActiveSecretID of a stored peering-secrets row
 //	checks:ServiceTags:stale-online-copy (also ServiceName)  restored value == the current service row's value
@@ -121,10 +124,15 @@ func (c *cutCtx) hasInstanceNamed(svc string) bool {
 	}
 	return false
 }
-func (c *cutCtx) hasConnectInstanceFor(svc string) bool {
+
+// hasConnectInstanceFor: some proxy names svc as its destination, or an instance of svc is connect-native.
+// anyPeer also counts imported (peered) rows: ensureServiceTxn runs checkGatewayWildcardsAndUpdate for them.
+func (c *cutCtx) hasConnectInstanceFor(svc string, anyPeer bool) bool {
 	for _, r := range c.a["services"] {
 		f := topFields(r)
-		// peered (imported) proxies count too: ensureServiceTxn runs checkGatewayWildcardsAndUpdate for them
+		if !anyPeer && f["PeerName"] != "" {
+			continue
+		}
 		if unq(f["ServiceKind"]) == "connect-proxy" && strings.EqualFold(nested(f["ServiceProxy"], "DestinationServiceName"), svc) {
 			return true
 		}
@@ -133,6 +141,44 @@ func (c *cutCtx) hasConnectInstanceFor(svc string) bool {
 		}
 	}
 	return false
+}
+
+// wildcardRowOnlyFromProxy: the online wildcard row exists because a proxy registration created it
+// (checkGatewayWildcardsAndUpdate), while restore's expansion (updateGatewayNamespace) walks local typical
+// instances that have a local connect instance — and finds none for this service.
+func (c *cutCtx) wildcardRowOnlyFromProxy(svc string) bool {
+	return c.hasConnectInstanceFor(svc, true) && !(c.hasInstanceNamed(svc) && c.hasConnectInstanceFor(svc, false))
+}
+
+// refsOf: keys "node/serviceID" of a mesh-topology row's Refs map
+func refsOf(f map[string]string) (out [][2]string) {
+	v := f["Refs"]
+	for {
+		i := strings.IndexByte(v, '"')
+		if i < 0 {
+			return
+		}
+		j := strings.IndexByte(v[i+1:], '"')
+		if j < 0 {
+			return
+		}
+		key := v[i+1 : i+1+j]
+		v = v[i+j+2:]
+		if k := strings.IndexByte(key, '/'); k > 0 {
+			out = append(out, [2]string{key[:k], key[k+1:]})
+		}
+	}
+}
+
+// instancesAt: service rows (any peer) at node/serviceID, compared as memdb does (ignoring case)
+func (c *cutCtx) instancesAt(d Dump, node, id string) (rows []map[string]string) {
+	for _, r := range d["services"] {
+		f := topFields(r)
+		if strings.EqualFold(unq(f["Node"]), node) && strings.EqualFold(unq(f["ServiceID"]), id) {
+			rows = append(rows, f)
+		}
+	}
+	return
 }
 
 // recountServiceNames: what restore's updateServiceNameUsage computes for usage "service-names" — one per
@@ -275,7 +321,7 @@ func (c *cutCtx) lostRow(t string, f map[string]string, raw string, add func(sig
 		return
 	case "gateway-services":
 		svc := nested(f["Service"], "Name")
-		if f["FromWildcard"] == "T" && !c.hasInstanceNamed(svc) && c.hasConnectInstanceFor(svc) {
+		if f["FromWildcard"] == "T" && c.wildcardRowOnlyFromProxy(svc) {
 			add("gateway-services:rows-lost:proxy-without-destination-instance", desc)
 			return
 		}
@@ -285,13 +331,26 @@ func (c *cutCtx) lostRow(t string, f map[string]string, raw string, add func(sig
 		if gw == nil {
 			gw = c.configEntry("terminating-gateway", down)
 		}
-		if gw != nil && !c.hasInstanceNamed(up) && c.hasConnectInstanceFor(up) {
+		if gw != nil && c.wildcardRowOnlyFromProxy(up) {
 			add("mesh-topology:rows-lost:proxy-without-destination-instance", desc)
 			return
 		}
+		// stale online row: none of the proxies it refers to exists any more (e.g. its node was renamed by ID)
+		if refs := refsOf(f); len(refs) > 0 {
+			stale := true
+			for _, r := range refs {
+				if len(c.instancesAt(c.a, r[0], r[1])) > 0 {
+					stale = false
+				}
+			}
+			if stale {
+				add("mesh-topology:rows-lost:stale-row-of-vanished-proxy-online", desc)
+				return
+			}
+		}
 	case "kind-service-names":
 		svc := nested(f["Service"], "Name")
-		if unq(f["Kind"]) == "connect-enabled" && !c.hasConnectInstanceFor(svc) {
+		if unq(f["Kind"]) == "connect-enabled" && !c.hasConnectInstanceFor(svc, false) {
 			add("kind-service-names:connect-enabled-row-stale-online", desc)
 			return
 		}
@@ -308,6 +367,24 @@ func (c *cutCtx) addedRow(t string, f map[string]string, raw string, add func(si
 	case "usage":
 		add("usage:"+unq(f["ID"])+":added", desc)
 		return
+	case "mesh-topology":
+		// Refs are keyed node/serviceID without the peer: a local proxy re-registered without the upstream
+		// removed the row online although an imported proxy with the same node/id still has the upstream
+		up := nested(f["Upstream"], "Name")
+		for _, r := range refsOf(f) {
+			local, peered := false, false
+			for _, inst := range c.instancesAt(c.b, r[0], r[1]) {
+				if inst["PeerName"] == "" {
+					local = true
+				} else if strings.Contains(strings.ToLower(inst["ServiceProxy"]), `destinationname="`+strings.ToLower(up)+`"`) {
+					peered = true
+				}
+			}
+			if local && peered {
+				add("mesh-topology:rows-added:refs-ignore-peer-name", desc)
+				return
+			}
+		}
 	case "peering-secret-uuids":
 		id := unq(raw)
 		for _, r := range c.a["peering-secrets"] {
@@ -390,7 +467,7 @@ func (c *cutCtx) changedRow(t string, fa, fb map[string]string, rawA, rawB strin
 			add("gateway-services:wildcard-overwrites-explicit-online", desc)
 			explained("CAFile", "CertFile", "KeyFile", "SNI", "FromWildcard", "RaftIndex", "ServiceKind")
 		}
-		if diff["ServiceKind"] && unq(fa["ServiceKind"]) == "service" && fb["ServiceKind"] == "" && (c.hasInstanceNamed(svc) || c.hasConnectInstanceFor(svc)) &&
+		if diff["ServiceKind"] && unq(fa["ServiceKind"]) == "service" && fb["ServiceKind"] == "" && (c.hasInstanceNamed(svc) || c.hasConnectInstanceFor(svc, true)) &&
 			(fa["FromWildcard"] == "T" || gwKind != "terminating-gateway") {
 			add("gateway-services:ServiceKind:kind-empty-after-restore", desc)
 			explained("ServiceKind")
@@ -410,6 +487,17 @@ func (c *cutCtx) changedRow(t string, fa, fb map[string]string, rawA, rawB strin
 			if diff["ServiceName"] && sr["ServiceName"] == fb["ServiceName"] && !strings.EqualFold(fa["ServiceName"], fb["ServiceName"]) {
 				add("checks:ServiceName:stale-online-copy", desc)
 				explained("ServiceName")
+			}
+		}
+	}
+	// rows paired by the lower-cased key whose key is spelled differently (two names that differ only by case
+	// share one row): whichever writer came last owns the row, online and on restore — case-folding family
+	if len(diff) > 0 {
+		for _, k := range tableKeys[t] {
+			if fa[k] != fb[k] && strings.EqualFold(fa[k], fb[k]) {
+				add("case-folding:"+t, desc)
+				diff = map[string]bool{}
+				break
 			}
 		}
 	}
